@@ -3,7 +3,7 @@
      gen_gth_solve_jit A (zeros n) = ((reduced matrix, gth n A), true)      for every square A with n >= 1 rows.
    Hence the exact theorems of C02/Props.v (Q instance) and the bit-exact float runs speak about the current text. *)
 From Coq Require Import ZArith List Bool Arith Lia.
-From QE Require Import Base.Num Base.Pivot Gen.Kernels Gen.Kernels2 Gen.Kernels3 Base.PivotTie C04.TieGen C04.TieGenInit C02.Model.
+From QE Require Import Base.Num Base.Pivot Gen.Kernels Gen.Kernels2 Gen.Kernels3 Base.GenLemmas Base.RowOps C02.Model.
 Import ListNotations.
 
 Section Tie.
@@ -12,15 +12,7 @@ Notation mat := (list (list T)).
 
 Lemma mget_get (A : mat) i j : mget A i j = get A i j. Proof. reflexivity. Qed.
 
-Lemma fold_left_ext_in {A B} (f g : A -> B -> A) : forall l a, (forall a b, In b l -> f a b = g a b) ->
-  fold_left f l a = fold_left g l a.
-Proof.
-  induction l as [|x l IH]; intros a H; cbn; [reflexivity|]. rewrite H by (left; reflexivity).
-  apply IH. intros a' b Hb. apply H. right. exact Hb.
-Qed.
 
-Lemma upd_nth_self {B} (d : B) : forall (l : list B) k, upd_nth l k (nth k l d) = l.
-Proof. induction l as [|x l IH]; intros [|k]; cbn; try reflexivity. f_equal. apply IH. Qed.
 
 Lemma map_nth_seq {B} (l : list B) d : forall len lo, (lo + len <= length l)%nat ->
   map (fun j => nth j l d) (seq lo len) = firstn len (skipn lo l).
